@@ -13,6 +13,20 @@ static std::vector<std::array<T, 9>> values() {
     for (int i = 0; i < 9; i++) a[i] = (T)pool[(i + 9 * r) % 18];
     out.push_back(a);
   }
+  // the values of an exactly symmetric tensor (slots (i,j) and (j,i) equal, the six independent ones distinct), and vectors
+  // along one axis (0, +-1, 0 ...): structure-dependent shortcuts and zero tests with a forgotten component are met here
+  {
+    static const int sym[9] = {0, 1, 2, 1, 3, 4, 2, 4, 5};
+    std::array<T, 9> a;
+    for (int i = 0; i < 9; i++) a[i] = (T)pool[sym[i]];
+    out.push_back(a);
+    for (int axis = 0; axis < 3; axis++)
+      for (int sg : {1, -1}) {
+        std::array<T, 9> e{};
+        e[axis] = (T)sg;
+        out.push_back(e);
+      }
+  }
   // all zeros of both signs (a direction built from it is the zero direction), and values at and beyond the finite range
   // of the narrower types (IEEE-754 conversion: overflow to infinity; infinities stay infinities)
   {
